@@ -1,5 +1,7 @@
 import RattrDriver.AstJson
 import RattrModel.Resolve
+import RattrModel.Blacklist
+import RattrModel.ResolveLocal
 import RattrModel.Spec.ImportEquiv
 
 namespace Rattr.Driver.C06
@@ -34,13 +36,43 @@ def msymJson : MSym → Json
   | .imp n q => Json.mkObj [("k", "imp"), ("name", n.toS), ("qual", q.toS)]
   | .other n => Json.mkObj [("k", "other"), ("name", n.toS)]
 
+/-- regular-expression sources → patterns of the modelled fragment (error outside the fragment) -/
+def parsePatterns (j : Json) : R (List Blacklist.Pattern) := do
+  (← asStrList j).mapM fun src =>
+    match Blacklist.parse (str src) with
+    | some p => pure p
+    | none => throw s!"pattern outside the modelled fragment: {src}"
+
+/-- `[name, is_in_stdlib(name), [__safe_origin(m) | null for m in derive_module_names_right(name)]]` -/
+def parseFacts (j : Json) : R (List (Str × Blacklist.NameFacts)) := do
+  (← asArr j).mapM fun e => do
+    match (← asArr e) with
+    | [n, sl, os] =>
+      let origins ← (← asArr os).mapM asOptS
+      return (str (← asStr n), { inStdlib := (← asBool sl), origins := origins })
+    | _ => throw "facts entry must be [name, inStdlib, origins]"
+
+def factsFn (facts : List (Str × Blacklist.NameFacts)) (n : Str) : Blacklist.NameFacts :=
+  match Dict.get? facts n with
+  | some f => f
+  | none => { inStdlib := false, origins := [] }
+
 def parseWorld (j : Json) : R World := do
   let irs ← (← asArr (← field j "irs")).mapM fun e => do
     match (← asArr e) with
     | [n, syms] => return (str (← asStr n), (← (← asArr syms).mapM parseMSym))
     | _ => throw "irs entry must be [name, syms]"
-  return { existing := (← asStrList (← field j "existing")).map str,
-           ignored := (← asStrList (← field j "ignored")).map str, irs := irs }
+  let existing := (← asStrList (← field j "existing")).map str
+  -- optional "blacklist": {patterns, facts}: the ignored set is then COMPUTED by the model of
+  -- `is_in_import_blacklist` (plus whatever "ignored" lists explicitly)
+  let explicit := (← asStrList (← field j "ignored")).map str
+  let ignored ← match j.getObjVal? "blacklist" with
+    | .ok b => do
+      let ps ← parsePatterns (← field b "patterns")
+      let facts ← parseFacts (← field b "facts")
+      pure (explicit ++ Blacklist.ignoredOf ps (factsFn facts) existing)
+    | .error _ => pure explicit
+  return { existing := existing, ignored := ignored, irs := irs }
 
 def outcomeJson : Outcome → Json
   | .found m s => Json.mkObj [("k", "found"), ("module", m.toS), ("sym", msymJson s)]
@@ -97,5 +129,52 @@ def handleSpec (payload : Json) : R Json := do
     | some (.member m k a) => Json.arr #[Json.str "obj", Json.str m.toS, Json.str (k ++ '.' :: a).toS, Json.bool false]
     | some (.module m) => Json.arr #[Json.str "module", Json.str m.toS]
     | none => Json.null)
+
+/-- op `blacklist`: the model's `is_in_import_blacklist` verdict for each `[name, inStdlib, origins]`
+under the given pattern sources. -/
+def handleBlacklist (payload : Json) : R Json := do
+  let ps ← parsePatterns (← field payload "patterns")
+  let facts ← parseFacts (← field payload "names")
+  return jList (facts.map fun (n, f) => Json.bool (Blacklist.isInImportBlacklist ps n f))
+
+/-- op `regex`: `[pattern source, subject]` ↦ `[fullmatch, match]` (null outside the fragment). -/
+def handleRegex (payload : Json) : R Json := do
+  let cs ← (← asArr (← field payload "cases")).mapM asPair
+  return jList (cs.map fun (src, subj) =>
+    match Blacklist.parse (str src) with
+    | none => Json.null
+    | some p => Json.arr #[Json.bool (Blacklist.fullMatch p (str subj)), Json.bool (Blacklist.prefixMatch p (str subj))])
+
+open Rattr.ResolveLocal in
+def parseDSym (j : Json) : R DSym := do
+  let kind ← match (← asStr (← field j "kind")) with
+    | "func" => pure DKind.func
+    | "cls" => pure DKind.cls
+    | x => throw s!"bad symbol kind {x}"
+  return { kind := kind, name := str (← asStr (← field j "name")), iface := str (← asStr (← field j "iface")),
+           file := str (← asStr (← field j "file")) }
+
+open Rattr.ResolveLocal in
+def dsymJson (d : DSym) : Json :=
+  Json.mkObj [("kind", match d.kind with | .func => "func" | .cls => "cls"), ("name", d.name.toS),
+              ("iface", d.iface.toS), ("file", d.file.toS)]
+
+open Rattr.ResolveLocal in
+/-- op `resolve_local`: `__resolve_target_and_ir` for each Func / Class call target in the environment
+`{target: [sym], imports: [[module, [sym]]], moduleOf: [[file, module]]}`. -/
+def handleLocal (payload : Json) : R Json := do
+  let target ← (← asArr (← field payload "target")).mapM parseDSym
+  let imports ← (← asArr (← field payload "imports")).mapM fun e => do
+    match (← asArr e) with
+    | [n, ks] => return (str (← asStr n), (← (← asArr ks).mapM parseDSym))
+    | _ => throw "imports entry must be [module, keys]"
+  let moduleOf := (← asPairList (← field payload "moduleOf")).map fun (f, m) => (str f, str m)
+  let env : Env := { target := target, imports := imports, moduleOf := moduleOf }
+  let calls ← (← asArr (← field payload "calls")).mapM parseDSym
+  return Json.mkObj [("wf", Json.bool (localWFb env)), ("out", jList (calls.map fun t =>
+    match resolveTargetAndIr env t with
+    | .ok r => Json.mkObj [("k", "found"), ("inTarget", r.inTarget), ("module", r.module.toS), ("key", dsymJson r.key)]
+    | .error e => Json.mkObj [("k", "error"), ("err", match e with
+        | .importError => "ImportError" | .moduleNotFound => "ModuleNotFoundError" | .keyError => "KeyError")]))]
 
 end Rattr.Driver.C06
